@@ -169,11 +169,22 @@ impl<NonceSize: Unsigned, Rounds, IsX> ChaChaAny<NonceSize, Rounds, IsX> {
     }
 }
 
-impl<NonceSize, Rounds: Unsigned, IsX> ChaChaAny<NonceSize, Rounds, IsX> {
+impl<NonceSize: Unsigned, Rounds: Unsigned, IsX> ChaChaAny<NonceSize, Rounds, IsX> {
     #[inline]
     fn try_apply_keystream(&mut self, data: &mut [u8]) -> Result<(), ()> {
-        self.state
-            .try_apply_keystream::<WideEnabled>(data, Rounds::U32)
+        let d = self.state.state.get_stream_param(0);
+        let result = self
+            .state
+            .try_apply_keystream::<WideEnabled>(data, Rounds::U32);
+        if NonceSize::U32 == 12 {
+            // The block function counts in 64 bits. The IETF counter is only 32 bits wide: producing
+            // the last block must not carry into the first nonce word.
+            let ctr = self.state.state.get_stream_param(0) & 0xffff_ffff;
+            self.state
+                .state
+                .set_stream_param(0, (d & !0xffff_ffff) | ctr);
+        }
+        result
     }
 }
 
@@ -232,7 +243,9 @@ impl<NonceSize: Unsigned, Rounds, IsX> StreamCipherSeek for ChaChaAny<NonceSize,
     }
 }
 
-impl<NonceSize, Rounds: Unsigned, IsX> StreamCipher for ChaChaAny<NonceSize, Rounds, IsX> {
+impl<NonceSize: Unsigned, Rounds: Unsigned, IsX> StreamCipher
+    for ChaChaAny<NonceSize, Rounds, IsX>
+{
     #[inline]
     fn try_apply_keystream(&mut self, data: &mut [u8]) -> Result<(), LoopError> {
         Self::try_apply_keystream(self, data).map_err(|_| LoopError)
